@@ -287,7 +287,7 @@ def gen_tree(rng, depth, stats):
     if rng.random() < 0.4:
         # a list directly below the submodel (items: leaves or containers), so that list items carry / inherit sources
         ch.insert(rng.randint(0, len(ch)), rt.gen_elem(rng, max(2, depth - 1), "lst", force="SubmodelElementList", stats=stats))
-    return rt.node("Submodel", key, ch, id_="urn:a")
+    return rt.gen_attrs(rng, rt.node("Submodel", key, ch, id_="urn:a"))
 
 
 CLOCK_STEPS = [0, 0, 1, -1, 5, -5, 3600, -3600, -100000, 86400]
